@@ -278,10 +278,16 @@ func vConfigCase(out *vOut, c int) {
 			continue
 		}
 		items := rnd.IntN(7)
+		if items == 0 && shape != "plain" {
+			items = 1 // a batcher finishes an empty request at once, without export: a completion this script does not model
+		}
 		if rnd.IntN(10) == 0 {
 			items = int(queueSize) + 1 + rnd.IntN(3)
 		}
 		bytes := items*(3+rnd.IntN(5)) + rnd.IntN(4)
+		if bytes == 0 && shape != "plain" {
+			bytes = 1
+		}
 		req := &requesttest.FakeRequest{Items: items, Bytes: bytes}
 		ctx, cancel := context.WithCancel(context.Background())
 		x := &prod{cancel: cancel, items: items, el: configured(req)}
